@@ -267,6 +267,24 @@ def digit_loop(run, m, F, E):
                     else:
                         und.append('bounds of the access at line %d not decided' % e[1].line)
                         need_exact.append(e[1].line)
+            if o.kind == 'ret' and not [e for e in s2.events if e[0] == 'widen']:
+                # a path that returns without entering the digit loop (zero, or a fast path): the digits it stored must be
+                # enough for the value in the radix
+                room = len([e for e in s2.events if e[0] == 'fmt-store' and e[3] == 1 and
+                            not (isinstance(e[4], IntV) and not e[4].lin.t and e[4].lin.c == 0)])
+
+                def needs(v, r):
+                    n_ = 0
+                    while True:
+                        n_ += 1
+                        v //= max(r, 2)
+                        if v == 0:
+                            return n_
+                env = s2.find_model([I.as_u(s2, val), radix.lin], lambda v: needs(v[0], v[1]) > room)
+                if env is not None:
+                    v0, r0 = eval_in(env, I.as_u(s2, val)), eval_in(env, radix.lin)
+                    problems.append('a path that skips the digit loop stores %d digit(s), but value %d in radix %d needs %d; witness %s' %
+                                    (room, v0, r0, needs(v0, r0), own.fmt_env(env)))
             if o.kind == 'backedge':
                 nb += 1
                 b = s2.flags.get('wbegin:' + f.name) or {}
@@ -339,7 +357,11 @@ def digit_loop(run, m, F, E):
                 if good is None:
                     und.append('no carried value recognised as value := value / radix (carried: %s)' % ', '.join(repr(ev) for bv, ev in cands)[:120])
                 elif s2.is_ge0(I.as_u(s2, good) - 1) is not True:
-                    problems.append('the loop body runs although the value may be zero')
+                    env = s2.find_model([I.as_u(s2, good)], lambda v: v[0] == 0)
+                    if env is not None:
+                        problems.append('the loop body runs although the value may be zero; witness %s' % own.fmt_env(env))
+                    else:
+                        und.append('the body is not decided to run only for a non-zero value (a loop tested at the bottom?)')
         if need_exact and not problems:
             # a table over-read seen in the abstraction of the loop: confirmed (or not) on an exactly interpreted prefix of the
             # loop, where every value is a function of the inputs alone
